@@ -189,6 +189,22 @@ CHECKS = {
         technique="TLA+ syntax spec + TLC exhaustive enumeration, behaviour replay into real code",
         design_ref="DESIGN.md section 5 C17",
     ),
+    "C16": dict(
+        level="exploration",
+        text=("Robust.tla states the totality invariant (every entry point returns a value or an error - no panic, no fatal crash - "
+              "within 2 s + 20 us/byte and 16 MiB + 1024 x length) and enumerates the H1 grammar of length-prefixed samples "
+              "exhaustively; the other families are the syntax specs' behaviours (AnnexB, AvcSyntax, SeiSyntax, AacSyntax) and HEVC/"
+              "configuration-record vectors under systematic mutation (every prefix, head substitutions, hand-made count bombs). "
+              "Every input runs through every entry point of its family (NAL walkers, Annex B scanners, AVC/HEVC SPS/PPS/slice parsers "
+              "against several SPS contexts, SEI extraction and all decoders with String/Payload/Size, ADTS/ASC, avcC/hvcC/av1C/esds) "
+              "in an isolated worker under recover(), a 6 s watchdog and ulimit -v; crashes are attributed through a progress file; "
+              "TLC validates every recorded outcome."),
+        note=("The decisive observation is the runtime monitor on the real code; TLC supplies the H1 grammar and the bases and "
+              "evaluates the invariant on the recorded outcomes. Exhaustive over the stated grammar only, not over all byte strings. "
+              "Quick tier takes a seeded slice of the larger families."),
+        technique="TLA+ input grammar + totality invariant, isolated runtime monitor on real code, TLC trace validation",
+        design_ref="DESIGN.md section 5 C16",
+    ),
 }
 
 PENDING_REASON = "check not built yet in this revision (planned in DESIGN.md section 5); not claimed until its machinery exists"
